@@ -242,7 +242,38 @@ pub fn gen_frac(r: &mut GRng) -> (i64, i64) {
     }
 }
 
+/// counter storm: every state updates both counters (mostly Set, from a copy, a constant 0 or 1, or
+/// the unit) and follows CounterZero with certainty, so that CounterZero chains and cycles - zeroing
+/// by Set, by copying a zero, with the other counter re-armed on the way - occur by construction
+fn gen_storm(r: &mut GRng, real: bool) -> MMachine {
+    let ns = r.gen_range(1..=3usize);
+    let ctr = |r: &mut GRng| {
+        let op = match r.gen_range(0..20) { 0..=11 => "set", 12..=16 => "dec", _ => "inc" }.to_string();
+        match r.gen_range(0..20) {
+            0..=6 => MCtr { on: true, op, copy: true, dist: MDist::none() },
+            7..=12 => MCtr { on: true, op, copy: false, dist: MDist::none() },
+            13..=16 => MCtr { on: true, op, copy: false, dist: MDist::constant(0) },
+            _ => MCtr { on: true, op, copy: false, dist: MDist::constant(1) },
+        }
+    };
+    let states = (0..ns)
+        .map(|_| {
+            let mut trans = BTreeMap::new();
+            trans.insert("CounterZero".to_string(), vec![(r.gen_range(0..ns) as i64, 16u32)]);
+            trans.insert("NormalSent".to_string(), vec![(r.gen_range(0..ns) as i64, 16u32)]);
+            if r.gen_bool(0.5) {
+                trans.insert("NormalRecv".to_string(), vec![(r.gen_range(0..ns) as i64, 8u32)]);
+            }
+            MState { action: gen_action(r, real), ca: ctr(r), cb: ctr(r), trans }
+        })
+        .collect();
+    MMachine { allowedPad: 1000, padFrac: (1, 1), allowedBlock: 1000, blockFrac: (1, 1), states }
+}
+
 pub fn gen_machine(r: &mut GRng, real: bool) -> MMachine {
+    if r.gen_range(0..6) == 0 {
+        return gen_storm(r, real);
+    }
     let ns = r.gen_range(1..=4usize);
     let density = *pick(r, &[0.2, 0.35, 0.6]);
     MMachine {
